@@ -12,6 +12,7 @@ def stepC05 : List String → String
   | "run" :: ts => Driver.RunOp.evalRun .all ts
   | "tamper" :: ts => Driver.RunOp.evalRun .all ts
   | "txsig" :: ts => Driver.TxSigOp.evalTxsig ts
+  | "tie" :: ts => Driver.TxSigOp.evalTie ts
   | _ => "bad-op"
 
 def main : IO Unit := runPure stepC05
